@@ -37,17 +37,55 @@ def term_b(c):
             % (nl(c["ts"]), nl(c["os"]), zl(c["g"]), zl(c["v"]), zl(c["unb"]), zl(c["bc"]), C.cbool(c["ok"])))
 
 
+def sum_cases(seed, n):
+    """np.sum / np.mean over every kind of axis argument: None, int, negative, tuples (also negative / unsorted), keepdims"""
+    rng = random.Random(seed + 7)
+    shapes = [(3,), (2, 3), (3, 1), (2, 1, 2), (2, 3, 2), (1,), (2, 2, 1, 2), (4, 1, 3)]
+    out = []
+    for i in range(n):
+        sh = shapes[i % len(shapes)]
+        nd = len(sh)
+        kind = rng.random()
+        if kind < 0.15:
+            ax = None
+        elif kind < 0.55:
+            ax = rng.randrange(-nd, nd)
+        else:
+            k = rng.randint(1, nd)
+            ax = [a if rng.random() < 0.5 else a - nd for a in rng.sample(range(nd), k)]
+        size = 1
+        for d in sh:
+            size *= d
+        out.append({"fn": "sum" if rng.random() < 0.6 else "mean", "sh": list(sh), "axis": ax, "keepdims": rng.random() < 0.5,
+                    "x": [rng.randint(-3, 3) for _ in range(size)], "g": [rng.randint(-3, 3) for _ in range(size)]})
+    return out
+
+
+def term_s(c):
+    nl = lambda l: C.clist([C.cnat(x) for x in l])  # noqa: E731
+    zl = lambda l: C.clist([C.cz(x) for x in l])  # noqa: E731
+    return ("{| r_sh := %s; r_axes := %s; r_x := %s; r_g := %s; r_impl_sum := %s; r_impl_vjp := %s; r_impl_jvp := %s; r_adjoint_ok := %s |}"
+            % (nl(c["sh"]), nl(c["axes"]), zl(c["x"]), zl(c["g0"]), zl(c["sum"]), zl(c["vjp"]), zl(c["jvp"]), C.cbool(c["ok"])))
+
+
 def run_bcast(res, tag, seed, n):
-    out, err = C.run_impl("impl_bcast.py", {"cases": bcast_cases(seed, n)})
+    out, err = C.run_impl("impl_bcast.py", {"cases": bcast_cases(seed, n), "sums": sum_cases(seed, 2 * n)})
     if out is None:
         return [], [], err
+    sums = out.get("sums", [])
+    scodes = C.coq_eval(tag + "_sum", IMPORTS, "", [term_s(c) for c in sums], "check01s")
+    res.add_cases(len(sums), [("sum", c["fn"], str(c["sh"]), str(c["axis"]), c["keepdims"]) for c in sums],
+                  [{"reduction": c["fn"], "shape": c["sh"], "axis": c["axis"], "keepdims": c["keepdims"]} for c in sums[:1]])
+    res.count("reduction-cases", len(sums))
+    sbad = [dict(c, site={"primitive": c["fn"]}) for c, k in zip(sums, scodes) if k == 2]
+    stie = [c for c, k in zip(sums, scodes) if k == 1]
     cases = out["cases"]
     codes = C.coq_eval(tag, IMPORTS, "", [term_b(c) for c in cases], "check01b")
     res.add_cases(len(cases), [(str(c["ts"]), str(c["os"]), str(c["g"])) for c in cases if c["ts"] != c["os"]],
                   [{"target_shape": c["ts"], "out_shape": c["os"], "g": c["g"], "unbroadcast": c["unb"]} for c in cases[:1]])
     res.count("broadcast-pairs", len(cases))
-    bad = [dict(c, site={"primitive": "unbroadcast"}) for c, k in zip(cases, codes) if k == 2]
-    tie = [c for c, k in zip(cases, codes) if k == 1]
+    bad = [dict(c, site={"primitive": "unbroadcast"}) for c, k in zip(cases, codes) if k == 2] + sbad
+    tie = [c for c, k in zip(cases, codes) if k == 1] + stie
     return bad, tie, None
 
 
